@@ -117,7 +117,7 @@ class Norm:
             a, b = self.N(t[2], sub), self.N(t[3], sub)
             if a == b:
                 return a
-            strong = ("bag", "valof", "getempty", "keys")
+            strong = ("bag", "valof", "getempty", "getnone", "keys")
             if (a[0] in strong or b[0] in strong) and self.is_coll(a) and self.is_coll(b):
                 return self.bag(("ite", t[1], t[2], t[3]), sub)
             return ("ite", c, a, b)
@@ -162,7 +162,7 @@ class Norm:
 
     @staticmethod
     def is_coll(n) -> bool:
-        return n[0] in ("bag", "valof", "getempty", "keys") or (n[0] == "sym")
+        return n[0] in ("bag", "valof", "getempty", "getnone", "keys") or (n[0] == "sym")
 
     def lift(self, t):
         """Hoists a conditional found directly among the arguments / parts of a term to the top."""
@@ -219,6 +219,7 @@ class Norm:
         # inside an iteration over a source, that source is not empty
         out = [(e, f, self.simp(nonempty_sources(c, f))) if f and c != TRUE else (e, f, c) for e, f, c in out]
         out = [g for g in out if g[2] != FALSE and self.feasible(g)]
+        out = self.merge_exclusive(out)
         if len(out) == 1:
             elt, fors, c = out[0]
             if c == TRUE and len(fors) == 1:
@@ -228,6 +229,35 @@ class Norm:
                 if src[0] == "keys" and elt == ("pair", v, ("valof", src[1], v)):
                     return src[1]
         return ("bag", tuple(("g", e, f, c) for e, f, c in out))
+
+    def merge_exclusive(self, gens):
+        """`e for v in S if c1` and `e for v in S if c2` with c1, c2 mutually exclusive are one generator `... if c1 or c2`."""
+        if len(gens) < 2:
+            return gens
+        out: list = []
+        heads: list = []
+        for e, f, c in gens:
+            head = canon_gen(("g", e, f, TRUE), {}, 0, with_cond=False)
+            merged = False
+            for i, h in enumerate(heads):
+                if h != head:
+                    continue
+                e0, f0, c0 = out[i]
+                ren = {v: v0 for (v, _s), (v0, _s0) in zip(f, f0)}
+                c2 = subst(c, ren)
+                names = {v: f"v{k}" for k, (v, _s) in enumerate(f0)}
+                try:
+                    exclusive = not g_satisfiable(g_and([to_formula(c0, names, len(f0)), to_formula(c2, names, len(f0))]))
+                except Exception:  # noqa: BLE001
+                    exclusive = False
+                if exclusive:
+                    out[i] = (e0, f0, self.simp(c_or([c0, c2])))
+                    merged = True
+                    break
+            if not merged:
+                out.append((e, f, c))
+                heads.append(head)
+        return out
 
     @staticmethod
     def feasible(g) -> bool:
@@ -272,7 +302,7 @@ class Norm:
             a = [(e, f, cs + [n[1]]) for e, f, cs in self.gens_nf(n[2])]
             b = [(e, f, cs + [c_not(n[1])]) for e, f, cs in self.gens_nf(n[3])]
             return a + b
-        if n[0] == "getempty":
+        if n[0] in ("getempty", "getnone"):
             return [(e, f, cs + [self.member(n[2], ("keys", n[1]))]) for e, f, cs in self.atomic(("valof", n[1], n[2]))]
         if n[0] in ("const",) and n[1] is None:
             self.opaque.append("iteration over None")
@@ -377,7 +407,7 @@ class Norm:
             return c_or([c_and([x[1], self.member(x[2], coll)]), c_and([c_not(x[1]), self.member(x[3], coll)])])
         if coll[0] == "ite":
             return c_or([c_and([coll[1], self.member(x, coll[2])]), c_and([c_not(coll[1]), self.member(x, coll[3])])])
-        if coll[0] == "getempty":
+        if coll[0] in ("getempty", "getnone"):
             return c_and([self.member(coll[2], ("keys", coll[1])), ("in", x, ("valof", coll[1], coll[2]))])
         if coll[0] == "sym" and coll[1] in self.dict_syms:
             coll = ("keys", coll)
@@ -443,6 +473,10 @@ class Norm:
                     return FALSE
                 if y == NONE and rooted_at_caught(x):
                     return FALSE  # the message of a caught AssertionError is a string
+                if y == NONE and x[0] == "getnone":
+                    return c_not(self.member(x[2], ("keys", x[1])))
+                if y == NONE and x[0] in ("getempty", "valof"):
+                    return FALSE
             return ("is", a, b)
         if tag in ("any", "all"):
             n = self.N(c[1], sub)
@@ -470,6 +504,8 @@ class Norm:
             return ("truthy", n)
         if tag == "len":
             return self.truthy(n[1])
+        if tag in ("getnone", "getempty"):
+            return c_and([self.member(n[2], ("keys", n[1])), ("truthy", ("valof", n[1], n[2]))])
         if tag in ("inst", "fluent", "stage", "exc"):
             return TRUE
         if rooted_at_caught(n) and n[0] != "caught":
@@ -479,23 +515,27 @@ class Norm:
         return ("truthy", n)
 
     def simp(self, c):
-        """Constant folding with the assumed atoms; negation normal form."""
+        """Canonical form of a condition: constants folded (with the assumed atoms), then the disjunction of all prime
+        implicants (Blake canonical form) - equivalent conditions over the same atoms get the same structure."""
+        return blake(self.simp0(c))
+
+    def simp0(self, c):
         tag = c[0]
         if tag == "const":
             return c
         if tag == "not":
             x = c[1]
             if x[0] == "not":
-                return self.simp(x[1])
+                return self.simp0(x[1])
             if x[0] == "and":
-                return self.simp(("or", tuple(c_not(y) for y in x[1])))
+                return self.simp0(("or", tuple(c_not(y) for y in x[1])))
             if x[0] == "or":
-                return self.simp(("and", tuple(c_not(y) for y in x[1])))
-            return c_not(self.simp(x))
+                return self.simp0(("and", tuple(c_not(y) for y in x[1])))
+            return c_not(self.simp0(x))
         if tag in ("and", "or"):
             parts = []
             for x in c[1]:
-                s = self.simp(x)
+                s = self.simp0(x)
                 if s[0] == tag:
                     parts.extend(s[1])
                 else:
@@ -513,6 +553,67 @@ class Norm:
         if key in self.assume:
             return ("const", self.assume[key])
         return c
+
+
+def blake(c):
+    if c[0] not in ("and", "or", "not"):
+        return c
+    atoms: list = []
+
+    def collect(x):
+        if x[0] in ("and", "or"):
+            for y in x[1]:
+                collect(y)
+        elif x[0] == "not":
+            collect(x[1])
+        elif x[0] != "const" and x not in atoms:
+            atoms.append(x)
+
+    collect(c)
+    n = len(atoms)
+    if n == 0 or n > 8:
+        return c
+
+    def ev(x, env):
+        if x[0] == "const":
+            return x[1]
+        if x[0] == "not":
+            return not ev(x[1], env)
+        if x[0] == "and":
+            return all(ev(y, env) for y in x[1])
+        if x[0] == "or":
+            return any(ev(y, env) for y in x[1])
+        return env[atoms.index(x)]
+
+    minterms = [bits for bits in itertools.product([False, True], repeat=n) if ev(c, bits)]
+    if not minterms:
+        return FALSE
+    if len(minterms) == 2 ** n:
+        return TRUE
+    # Quine-McCluskey: all prime implicants (None = don't care)
+    current = {tuple(m) for m in minterms}
+    primes = set()
+    while current:
+        used = set()
+        nxt = set()
+        cur = list(current)
+        for a_i in range(len(cur)):
+            for b_i in range(a_i + 1, len(cur)):
+                a, b = cur[a_i], cur[b_i]
+                diff = [k for k in range(n) if a[k] != b[k]]
+                if len(diff) == 1 and a[diff[0]] is not None and b[diff[0]] is not None:
+                    m = list(a)
+                    m[diff[0]] = None
+                    nxt.add(tuple(m))
+                    used.add(a)
+                    used.add(b)
+        primes |= current - used
+        current = nxt
+    terms = []
+    for p in sorted(primes, key=lambda t: tuple(2 if v is None else int(v) for v in t)):
+        lits = [atoms[k] if p[k] else c_not(atoms[k]) for k in range(n) if p[k] is not None]
+        terms.append(c_and(lits))
+    return c_or(terms)
 
 
 def nonempty_sources(c, fors):
